@@ -46,7 +46,10 @@ def translate(evs):
         if e["ev"] in ("x_settle", "end"):
             break
         body.append(e)
-    cmds, groups, cidx = [], [], {}
+    class _Ids(dict):
+        def __missing__(self, key):      # an object the scenario's commands did not create: no design action matches -1
+            return -1
+    cmds, groups, cidx = [], [], _Ids()
     seen_targets = set()
     reqs, skip_reqs = [], set()
     for e in body:
@@ -69,7 +72,7 @@ def translate(evs):
                 reqs.append(e["r"])
     if not cmds:
         return None, "no commands"
-    ver2k, lb2k = {0: 0}, {0: 0}
+    ver2k, lb2k = _Ids({0: 0}), _Ids({0: 0})
     out = [{"a": "header", "cmds": cmds, "groups": groups, "reqs": reqs}]
     open_cmd, pc_seen, kinds = None, False, {}
     for e in body:
@@ -83,12 +86,12 @@ def translate(evs):
                 return None, "overlapping commands"
             open_cmd, pc_seen = e, False
             if e["kind"] == "deploy":
-                out.append({"a": "DepCall", "k": cidx[e["c"]]})
+                out.append({"a": "DepCall", "k": cidx[e.get("c")]})
         elif ev == "e_dep_new_lb":
-            ver2k[e["ver"]] = cidx[e["c"]]
-            lb2k[e["lb"]] = cidx[e["c"]]
+            ver2k[e["ver"]] = cidx[e.get("c")]
+            lb2k[e["lb"]] = cidx[e.get("c")]
         elif ev == "cmd_ret":
-            k = cidx[e["c"]]
+            k = cidx[e.get("c")]
             if e["res"] not in ("ok", "unhealthy", "not_found"):
                 return None, "result " + e["res"]
             if open_cmd["kind"] != "deploy" and not pc_seen:
@@ -106,21 +109,19 @@ def translate(evs):
         elif ev == "e_hc_apply":
             out.append({"a": "HcApply", "t": e["tg"], "ok": bool(e["ok"]), "state": e["state"]})
         elif ev == "e_rotation":
-            if e["lb"] not in lb2k:
-                return None, "unknown load balancer"
             out.append({"a": "Rotation", "lb": lb2k[e["lb"]], "healthy": e["healthy"]})
         elif ev == "y_hc_notified":
             out.append({"a": "HcNotified", "t": e["tg"]})
         elif ev == "e_hc_close":
             out.append({"a": "HcClose", "t": e["tg"]})
         elif ev == "y_dep_healthy":
-            out.append({"a": "DepHealthy", "k": cidx[e["c"]]})
+            out.append({"a": "DepHealthy", "k": cidx[e.get("c")]})
         elif ev == "e_update_lb":
-            out.append({"a": "UpdateLb", "k": cidx[e["c"]], "lb": lb2k[e["lb"]]})
+            out.append({"a": "UpdateLb", "k": cidx[e.get("c")], "lb": lb2k[e["lb"]]})
         elif ev == "e_install":
-            out.append({"a": "Install", "k": cidx[e["c"]]})
+            out.append({"a": "Install", "k": cidx[e.get("c")]})
         elif ev == "y_dep_drained":
-            out.append({"a": "DepDrained", "k": cidx[e["c"]]})
+            out.append({"a": "DepDrained", "k": cidx[e.get("c")]})
         elif ev == "y_drain_start":
             out.append({"a": "DrainStart", "t": e["tg"]})
         elif ev == "e_target_state":
@@ -135,8 +136,6 @@ def translate(evs):
             kinds[r] = dk
             out.append({"a": "Send", "r": r, "kind": dk})
         elif ev == "y_routed":
-            if e.get("ver", 0) not in ver2k:
-                return None, "unknown service version"
             out.append({"a": "Routed", "r": r, "ver": ver2k[e.get("ver", 0)]})
         elif ev == "y_wait_snapshot":
             out.append({"a": "Gate", "r": r, "state": PSTATE[e["state"]]})
